@@ -595,7 +595,7 @@ pub fn wcb_rule(cx: &Cx, rep: &mut Report) {
         rep.check(ok, "DM-wcb", &f.qual, "push-bounds", "pushing a bound(...) level does not record all its predicates and types and return its continue flag", &site(&f), json!({}));
     } else { rep.fail("unanalysable", "WhereClauseBuilder", "push_bounds", "method (&Bounds) -> bool not found", "bound.rs", json!({})); }
     // push_bounds_for_field
-    if let Some(f) = find_fn(ix, &|f| f.self_ty.as_deref() == Some("WhereClauseBuilder") && sig_text(f).contains("&Field")) {
+    if let Some(f) = find_fn(ix, &|f| f.self_ty.as_deref() == Some("WhereClauseBuilder") && sig_text(f).contains("&Field") && sig_text(f).contains("&mutself")) {
         let outs = ev.call_fn(St::new(), &f, Some(wsym.clone()), vec![sym("Field", "field")]);
         let mut ok = outs.len() == 2;
         for (st, _) in &outs {
